@@ -26,7 +26,7 @@ func init() {
 		QuickRuns:    6000,
 		ThoroughRuns: 200000,
 		RaceDivisor:  6,
-		RaceScope:    []string{"imapclient.", "imapwire."},
+		RaceScope:    []string{"imapclient.", "imapwire.", "utf7.", "internal."},
 		Run:          runC18,
 	})
 }
@@ -96,6 +96,11 @@ func runC18(r *R) {
 			selected = true
 		case "Unselect", "Close":
 			selected = false
+		case "Search":
+			// a multi-byte search string around the 4096-byte LITERAL- limit: the limit counts bytes, not characters
+			if o.Crit != nil && t.Choose(4) == 0 {
+				o.Crit.Body = append(o.Crit.Body, strings.Repeat("é", []int{2040, 2047, 2048, 2049, 2500, 4096}[t.Choose(6)]))
+			}
 		case "Create", "Delete", "Subscribe", "Unsubscribe", "Status":
 			// a string argument longer than the LITERAL- limit outside APPEND (the scripted server accepts any size)
 			if t.Choose(5) == 0 {
